@@ -625,7 +625,37 @@ def geometry_group_level(rep, tier, timeout):
             obs.append(oblig.Ob("%s input" % dv, cond=ne(S(1 if ok else 0), 1),
                                 meta={"family": "each scalar design variable reaches the transformation of the same name", "dv": dv, "fed_by": names}))
 
-        def rp(ob, env, surf=surf, nx=nx, ny=ny):
+        # what the group starts from when the user sets nothing: every design variable's own dictionary entry (all entries
+        # different from each other here, so that a value taken from the wrong key shows)
+        from fractions import Fraction as _Fr
+        from symoas.sym import const as _const
+
+        own_vals = {"taper": 0.7, "sweep": 12.0, "dihedral": 5.0, "span": 1.5 * surf["span"], "chord_cp": 1.0 + 0.1 * np.arange(1, ncp + 1), "twist_cp": 0.5 * np.arange(1, ncp + 1),
+                    "xshear_cp": 0.01 * np.arange(1, ncp + 1), "yshear_cp": 0.02 * np.arange(1, ncp + 1), "zshear_cp": 0.03 * np.arange(1, ncp + 1), "t_over_c_cp": 0.1 + 0.01 * np.arange(1, ncp + 1)}
+        surf2 = dict(surf, **own_vals)
+        prob2 = om.Problem(reports=False)
+        prob2.model.add_subsystem("geo", Geometry(surface=surf2))
+        with warnings.catch_warnings():
+            warnings.simplefilter("ignore")
+            prob2.setup()
+            prob2.final_setup()
+        for key, want in own_vals.items():
+            got_ = np.ravel(np.asarray(prob2.get_val("geo." + key), dtype=float))
+            for j_, (g_, w_) in enumerate(zip(got_, np.ravel(np.asarray(want, dtype=float)))):
+                obs.append(oblig.Ob("default of %s[%d]" % (key, j_), lhs=_const(_Fr(float(g_))), rhs=_const(_Fr(float(w_))),
+                                    meta={"family": "without user input every design variable starts from its own dictionary entry", "dv": key, "default": True}))
+
+        def rp(ob, env, surf=surf, nx=nx, ny=ny, surf2=surf2, own_vals=own_vals):
+            if ob.meta.get("default"):
+                p3 = om.Problem(reports=False)
+                p3.model.add_subsystem("geo", Geometry(surface=surf2))
+                with warnings.catch_warnings():
+                    warnings.simplefilter("ignore")
+                    p3.setup()
+                    p3.final_setup()
+                key = ob.meta["dv"]
+                g_, w_ = np.ravel(np.asarray(p3.get_val("geo." + key), dtype=float)), np.ravel(np.asarray(own_vals[key], dtype=float))
+                return bool(np.abs(g_ - w_).max() > 1e-12), "Geometry group built from a dictionary with %s = %s starts from %s = %s" % (key, np.round(w_, 6), key, np.round(g_, 6))
             return replay_geometry_group(surf, ob.meta["dv"])
 
         run_obligations(rep, "real Geometry group: design-variable plumbing [%s, %d control points]" % (cn, ncp), obs, timeout, replay=rp,
